@@ -54,9 +54,7 @@ def obsM (anc w : MRO) (m : Meth) : String :=
 
 def tableLine (t : List Entry) (r : Row) : String :=
   let cols := methOrder.map fun m =>
-    let mdd := match mostDerivedDef t m (t.length + 1) r.id with
-      | some d => toString d
-      | none => "-"
+    let mdd := fnS (mostDerivedDef t m (t.length + 1) r.id)
     s!"{ml m}:{obsM r.anc r.mro m},{mdd}"
   let mro := String.intercalate "," (r.mro.map fun c => toString c.id)
   s!"{r.id} {r.name} mro={mro} | " ++ String.intercalate " | " cols
